@@ -24,7 +24,8 @@
      request that ever arrived at any node exactly once (real answer before, dropped-packet error or real answer
      after); every answer ever given is the dropped-packet error, the node's own result, or the join of earlier
      answers to the derived packets.  C03_network_teardown_one_answer: after the teardown every packet that ever
-     arrived anywhere has exactly one recorded answer.
+     arrived anywhere has exactly one recorded answer.  C03_network_closed_never_waits: a closed node can answer what
+     it holds at once, whatever the state of the other nodes (release does not depend on anybody downstream).
    PARTIAL: port and process teardown (port close with late listeners, exit hooks) reduce to closes of readers and
    writers, which the first three theorems cover per writer, and to node closes (the two theorems above); that the
    real teardown IS that composition is enumerated on the implementation: src -> A -> B -> sink with
@@ -95,6 +96,11 @@ Theorem C03_network_teardown_one_answer : forall (ans : Type) (join : list ans -
   forall n id, In id (Network.n_arr ans (Network.run ans join drop N ls) n) -> In id (map fst (Network.n_ans ans st')).
 Proof. exact Network.teardown_one_answer. Qed.
 Print Assumptions C03_network_teardown_one_answer.
+
+Theorem C03_network_closed_never_waits : forall (ans : Type) (join : list ans -> ans) (drop : ans) (N : nat) st n,
+  Network.n_closed ans st n = true -> Network.n_q ans st n <> [] -> Network.step ans join drop N st (Network.LDrop ans n) <> None.
+Proof. exact Network.closed_can_drop. Qed.
+Print Assumptions C03_network_closed_never_waits.
 
 (* non-vacuity: a diamond 0 -> {1, 2} -> 3 torn down with two requests in flight (one inside node 0's action, one
    waiting for node 3): every node ends with nothing pending, the outside gets one answer per request *)
